@@ -193,6 +193,7 @@ func runC08(p *core.Program, r *core.Report) {
 
 	excl := func(callee *ssa.Function) [][2]int { return lockset.ExclusivePairs(p, callee) }
 	expiryAgreement(p, r, fns)
+	c08Store(p, r, fns)
 
 	// ---- OD3: a boolean API's "true" answer must be feasible
 	if fn := mustFunc(p, r, "cache.(*Cache).IsExpired"); fn != nil {
@@ -765,4 +766,57 @@ func expiryAgreement(p *core.Program, r *core.Report, fns []*ssa.Function) {
 		r.Fatal("vacuous: %d functions read Item.expiration, floor is 3 (lookup, DeleteExpired, IsExpired)", readers)
 	}
 
+}
+
+// c08Store: who may reach the store primitive, and a rejected store leaves no trace.
+func c08Store(p *core.Program, r *core.Report, fns []*ssa.Function) {
+	c := rc{p, r}
+	const T = "cache.(*Cache)."
+	put, add, set, update := c.helper(T+"put"), c.helper(T+"add"), c.fn(T+"Set"), c.fn(T+"Update")
+	if put == nil || set == nil || update == nil {
+		return
+	}
+	// AG1: every insertion that is not an Update goes through Set's liveness test:
+	// put is called only by Set and add, add only by Update
+	for _, f := range fns {
+		for _, call := range callsTo(f, put) {
+			ok := f == set || (add != nil && f == add)
+			c.ob("AG1", p.FuncName(f), "calls the store primitive", p.InstrPos(call), ok, "the store primitive put is reached from a method other than Set (which first tests for a live entry) and add/Update: an existing live key can be overwritten silently instead of being reported")
+		}
+		if add != nil {
+			for _, call := range callsTo(f, add) {
+				c.ob("AG1", p.FuncName(f), "calls the unconditional store", p.InstrPos(call), f == update, "the unconditional store add is called from a method other than Update")
+			}
+		}
+	}
+	// ER5: put writes cache state only after every validation passed: no write can reach an error return
+	isWrite := func(in ssa.Instruction) bool {
+		switch x := in.(type) {
+		case *ssa.MapUpdate:
+			return isLoadOfField(x.Map, "cache", "items")
+		case *ssa.Store:
+			if fa, ok := x.Addr.(*ssa.FieldAddr); ok {
+				if n := namedOf(fa.X.Type()); n != nil && n.Obj().Name() == "Item" {
+					if al, isAl := fa.X.(*ssa.Alloc); isAl && al.Heap {
+						return false // the literal of a new item that is not yet in the map
+					}
+					return true
+				}
+			}
+		}
+		return false
+	}
+	nW := 0
+	for _, in := range path.Instrs(put) {
+		if !isWrite(in) {
+			continue
+		}
+		nW++
+		leak := path.CanReachWithout(in, func(i ssa.Instruction) bool {
+			rt, ok := i.(*ssa.Return)
+			return ok && len(rt.Results) == 1 && !path.IsNil(rt.Results[0])
+		}, func(ssa.Instruction) bool { return false })
+		c.ob("ER5", p.FuncName(put), "a rejected store leaves no trace", p.InstrPos(in), !leak, "cache state is written on a path that can still end in an error return: a rejected value (or duplicate) changes the entry although an error is reported")
+	}
+	c.ob("ER5", p.FuncName(put), "store site", c.fpos(put), nW >= 1, "put never writes the cache")
 }
